@@ -15,6 +15,7 @@ type VInt struct {
 type VBool struct{ T Term }
 type VBig struct{ T Term } // mathematical integer (content of a big.Int)
 type VStr struct{ S string }
+type VFloat struct{ T Term } // fp_precise mode only
 type VPtr struct{ C *Cell } // C == nil => nil pointer
 type VElemPtr struct {      // pointer to arr[idx] with symbolic idx (scalar elements only)
 	Arr *Cell
